@@ -2,7 +2,7 @@
 // regular file (mmap), a pre-filled pipe (read), or a std::istream, and prints one canonical line
 // `<result> @<Offset()>` per operation; mirrored by lean/Driver/C18.lean.
 //   data <hex>                      bytes of the input as stored (possibly gzip/bzip2/xz)
-//   open <file|pipe|istream> <min_buffer> <shim mode> <shim seed> <shim span>
+//   open <file|pipe|istream> <min_buffer> <shim mode> <shim seed> <shim span> [<mmap fails from offset, -1 never>]
 //   P | G | S <set> | L <delim> <strip> | E <delim> <strip> | D <set> | W <set> | F | B | I | U
 //   rc <n>                          util::ReadCompressed on a pre-filled pipe: Read(buf, n) until 0
 // <set> is `sp` (util::kSpaces) or `set:<hex bytes>`.
@@ -41,6 +41,7 @@ static void bytes_out(const char *p, size_t n) {
 
 typedef void (*shim_config_t)(int, uint64_t, uint64_t, int);
 typedef void (*shim_reset_t)(int);
+typedef void (*shim_mmfail_t)(long long);
 
 static bool g_set[256];
 static const bool *parse_set(const std::string &s) {
@@ -55,6 +56,7 @@ int main(int argc, char **argv) {
   const char *tmpdir = argc > 1 ? argv[1] : "/var/tmp";
   shim_config_t shim_config = (shim_config_t)dlsym(RTLD_DEFAULT, "kv_shim_config");
   shim_reset_t shim_reset = (shim_reset_t)dlsym(RTLD_DEFAULT, "kv_shim_reset");
+  shim_mmfail_t shim_mmfail = (shim_mmfail_t)dlsym(RTLD_DEFAULT, "kv_shim_mmap_fail_from");
   std::string line, data;
   util::FilePiece *fp = NULL;
   std::istringstream *iss = NULL;
@@ -86,6 +88,7 @@ int main(int argc, char **argv) {
       delete iss; iss = NULL;
     }
     if (shim_config && (op == "open" || op == "rc")) shim_config(0, 0, 1, 3);
+    if (shim_mmfail && (op == "open" || op == "rc")) shim_mmfail(-1);
     int pfd = -1;
     if (op == "rc" || op == "open") {
       // (both need the descriptor set up first)
@@ -93,8 +96,10 @@ int main(int argc, char **argv) {
     try {
       if (op == "open") {
         std::string backend; unsigned long minbuf; int mode; unsigned long long seed, span;
+        long long mmfail = -1;
         in >> backend >> minbuf >> mode >> seed >> span;
-        if (mode && !shim_config) { puts("no-shim"); continue; }
+        if (!(in >> mmfail)) mmfail = -1;
+        if ((mode || mmfail >= 0) && (!shim_config || !shim_mmfail)) { puts("no-shim"); continue; }
         if (backend == "file") {
           int fd = open(path.c_str(), O_CREAT | O_TRUNC | O_WRONLY, 0600);
           size_t off = 0;
@@ -103,6 +108,7 @@ int main(int argc, char **argv) {
           fd = util::OpenReadOrThrow(path.c_str());
           if (shim_reset) shim_reset(fd);
           if (shim_config) shim_config(mode, seed, span, 3);
+          if (shim_mmfail) shim_mmfail(mmfail);
           fp = new util::FilePiece(fd, "c18", NULL, minbuf);
         } else if (backend == "pipe") {
           int fds[2];
